@@ -85,7 +85,10 @@ CONSTRUCTIONS = (
 )
 
 ACCESS = ('idx+', 'idx-', 'npidx', 'key', 'iter', 'items', 'slice-iter',
-          'copy-idx', 'copy-iter', 'old-alias')
+          'copy-idx', 'copy-iter', 'old-alias', 'iter-live', 'items-live')
+# 'iter-live' / 'items-live': every example is mutated inside the loop body, as
+# soon as it has been yielded and before the next one is requested (a stage
+# that stores what it computed *after* handing it out would store the mutation)
 MUTATORS = ('append-inner', 'overwrite-nested', 'clear', 'del-key', 'extend-deep',
             'array-inplace', 'array-fill-bytes', 'container')
 
@@ -273,12 +276,15 @@ class World:
         return out
 
 
-def run_history(ld, cons, n, hist, tmp, res):
-    case = {'construction': cons[0], 'n': n, 'history': [list(s) for s in hist]}
+def run_history(ld, cons, n, hist, tmp, res, cold=False):
+    """`cold`: the history starts on a freshly built dataset (nothing cached
+    yet), so its first steps obtain the objects of *first* accesses."""
+    case = {'construction': cons[0], 'n': n, 'history': [list(s) for s in hist],
+            'cold': cold}
     sig = {'construction': cons[0]}
     try:
         w = World(ld, cons, n, tmp)
-        first = w.read_all()
+        first = [] if cold else w.read_all()
     except BaseException as e:
         res.case((cons[0], n, tuple(hist)), False)
         res.violation('construction-or-first-read-raised', case, exc_sig(e), sig=sig)
@@ -290,12 +296,25 @@ def run_history(ld, cons, n, hist, tmp, res):
     mutated = 0
     for step, (how, i, mut) in enumerate(hist):
         try:
-            objs = w.access(how, i % n)
+            if how in ('iter-live', 'items-live'):
+                if how == 'items-live' and not w.has_keys:
+                    continue
+                did = 0
+                objs = []
+                for x in (w.ds.items() if how == 'items-live' else w.ds):
+                    x = x[1] if how == 'items-live' else x
+                    objs.append(x)
+                    did += w.mutate([x], mut if mut != 'container' else 'clear')
+                res.count('examples_mutated_inside_the_loop', did)
+            else:
+                objs = w.access(how, i % n)
+                did = None
         except BaseException as e:
             res.violation('access-raised', {**case, 'step': step}, exc_sig(e), sig=sig)
             break
         w.aliases.extend(objs)
-        did = w.mutate(objs, mut)
+        if did is None:
+            did = w.mutate(objs, mut)
         mutated += did
         res.count('mutations_applied', did)
         try:
@@ -311,7 +330,9 @@ def run_history(ld, cons, n, hist, tmp, res):
                           sig={**sig, 'via': ('container' if mut == 'container'
                                               else 'handed-out')})
             break
-    res.case((cons[0], n, tuple(hist)), mutated > 0)
+    res.case((cons[0], n, tuple(hist), cold), mutated > 0)
+    if cold:
+        res.count('histories_on_a_cold_store')
     del w
     import gc
     gc.collect()
@@ -319,7 +340,8 @@ def run_history(ld, cons, n, hist, tmp, res):
 
 def all_steps(n):
     return [(how, i, mut) for how in ACCESS for i in range(n) for mut in MUTATORS
-            if not (how in ('iter', 'items', 'copy-iter', 'old-alias') and i > 0)]
+            if not (how in ('iter', 'items', 'copy-iter', 'old-alias', 'iter-live',
+                            'items-live') and i > 0)]
 
 
 def shards(tier, seed):
@@ -358,15 +380,25 @@ def run_shard(spec, res):
                     # length-2 histories (all of them over 5 seeds)
                     hs = hs[spec['seed'] % spec['stride2']::spec['stride2']]
                 hists += hs
+        stateful = cons[3] in ('cache', 'eager', 'newds', 'disk')
         for j, h in enumerate(hists):
             if j % nparts != part:
                 continue
             run_history(ld, cons, 2, h, tmp, res)
+            if stateful and (len(h) == 1 or j % 3 == 0):
+                run_history(ld, cons, 2, h, tmp, res, cold=True)
         steps4 = all_steps(4)
         nr = spec['nrand'] // (6 if cons[3] == 'disk' else nparts)
-        for _ in range(nr):
+        for r_ in range(nr):
             h = tuple(rng.choice(steps4) for _ in range(30))
-            run_history(ld, cons, 4, h, tmp, res)
+            run_history(ld, cons, 4, h, tmp, res, cold=stateful and r_ % 2 == 1)
+        if stateful:
+            # longer datasets, cold: a store that writes in batches only shows
+            # within a batch
+            for nn in (5, 17, 40):
+                for how in ('iter-live', 'items-live', 'iter'):
+                    for mut in ('append-inner', 'clear', 'array-inplace'):
+                        run_history(ld, cons, nn, ((how, 0, mut),), tmp, res, cold=True)
         res.sample({'construction': cons[0], 'n': 2,
                     'history': [list(s) for s in hists[min(len(hists) - 1, 77)]],
                     'step_format': '(access path, example index, mutator)'})
@@ -387,6 +419,7 @@ def replay(case, res):
     cons = next(c for c in CONSTRUCTIONS if c[0] == case['construction'])
     tmp = tempfile.mkdtemp(prefix='verif_c09_')
     try:
-        run_history(ld, cons, case['n'], tuple(tuple(s) for s in case['history']), tmp, res)
+        run_history(ld, cons, case['n'], tuple(tuple(s) for s in case['history']), tmp, res,
+                    cold=case.get('cold', False))
     finally:
         shutil.rmtree(tmp, ignore_errors=True)
